@@ -399,6 +399,20 @@ def oracle_notes(case):
                 rests.add(k)
         notes.append(o_note(e, rests, t0, lat, defs))
         return notes, t0
+    if prog[0] == 'replay':
+        # every play of the object (or of a copy) is a note of its own, at its own time
+        e, rests = {}, set()
+        for k, v in prog[2]:
+            x, r = o_val(v)
+            e[k] = x
+            if r:
+                rests.add(k)
+        t = t0
+        notes.append(o_note(e, rests, t, lat, defs))
+        for dt, _ in prog[3]:
+            t += F(dt)
+            notes.append(o_note(e, rests, t, lat, defs))
+        return notes, t
     tl, total = o_timeline(prog[2], ({}, set()))
     for st, e, rests in tl:
         if rests or e.get('type') == 'rest':
@@ -469,6 +483,8 @@ class Gen:
             return self.numv(r.choice(['1/2', '1', '3/4', '5/4', '1/8']))
         if k == 'sustain':
             return self.numv(self.dy(0, 3, (2, 4)))
+        if k == 'node_id':
+            return self.numv(str(r.choice([1000, 1001, 1234, 7])))
         if k == 'group':
             return self.numv(str(r.choice([0, 1, 2, 1001])))
         if k == 'add_action':
@@ -495,6 +511,8 @@ class Gen:
         ks += [k for k in ('dur', 'stretch', 'legato', 'sustain', 'delta') if r.random() < 0.35]
         ks += [k for k in ('group', 'add_action', 'out', 'pan', 'foo', 'bar', 'gate', 'scale', 'send_gate', 'has_gate')
                if r.random() < 0.2]
+        if r.random() < 0.06:
+            ks.append('node_id')          # an explicit node_id is not honoured: play always takes a fresh one
         r.shuffle(ks)
         return ks
 
@@ -595,7 +613,8 @@ class Check(common.Check):
         'explicit_sustain_wins', 'amp_db_over_velocity', 'amp_from_velocity', 'midinote_note_over_degree',
         'midinote_degree_over_freq', 'freq_from_degree', 'freq_default', 'chain_degree_to_midinote',
         'chain_degree_to_freq', 'player_plays_timetable', 'player_time_prefix_sums',
-        'ppar_preserves_child_timelines', 'pdur_total', 'pdur_passes_prefix', 'player_ids_fresh')]
+        'ppar_preserves_child_timelines', 'pdur_total', 'pdur_passes_prefix', 'player_ids_fresh',
+        'replay_ids_fresh')]
     N_QUICK = 2000
     N_THOROUGH = 40000
     ASSUMPTIONS = [
@@ -619,7 +638,7 @@ class Check(common.Check):
                 'random subset of 30 keys (pitch chain freq/midinote/note/degree + 7 modifiers + scale, '
                 'amp/db/velocity, dur/stretch/legato/sustain/delta, group/add_action/out/pan/gate/send_gate/'
                 'has_gate, custom controls; instrument = a generated def, an unknown name or the default), 4 % '
-                'with a string where a number is needed; 50 % patterns: Pbind (1-6 events, keys as finite '
+                'with a string where a number is needed, 6 % with an explicit node_id; 45 % patterns: Pbind (1-6 events, keys as finite '
                 'lists / cycles / constants, 12 % Rest values), Ppar (1-3 children, nested), Pdur (dyadic '
                 'duration, tolerance default/0/dyadic), Pdelta, Pbind<>p, depth <= 3. Played from a routine in '
                 'NRT; the /s_new, /n_set, /n_free entries of the score and the time of the last wake-up are '
@@ -631,8 +650,15 @@ class Check(common.Check):
         defs = g.defs(idx)
         lat = rng.choice(['0', '1/8', '1/4', '1/2'])
         t0 = g.dy(0, 3, (1, 2, 4))
-        if rng.random() < 0.5:
+        x = rng.random()
+        if x < 0.4:
             prog = ['event', t0, g.event(defs)]
+        elif x < 0.55:
+            # one event object played 2-4 times (itself / a copy of the played object); without
+            # harmonic / detune, which play() folds into the stored freq
+            ev = [kv for kv in g.event(defs) if kv[0] not in ('harmonic', 'detune') and kv[1][0] != 's' or kv[0] in ('instrument', 'add_action')]
+            plays = [[g.dy(0, 2, (1, 2, 4)), rng.choice(['same', 'same', 'copy'])] for _ in range(rng.randint(1, 3))]
+            prog = ['replay', t0, ev, plays]
         else:
             prog = ['pat', t0, g.pat(defs)]
         return {'lat': lat, 'defs': defs, 'prog': prog}
@@ -657,6 +683,8 @@ class Check(common.Check):
             p = c['prog']
             if p[0] == 'event':
                 lines.append(f'event {p[1]} {sx_ev(p[2])}')
+            elif p[0] == 'replay':
+                lines.append(f'replay {p[1]} {sx_ev(p[2])} ({" ".join(d for d, _ in p[3])})')
             else:
                 lines.append(f'pat {p[1]} {sx_pat(p[2])}')
         out, err = common.run_driver('Sc3Verif/C14/Driver.lean', lines)
@@ -717,7 +745,17 @@ class Check(common.Check):
             where = f'{m.group(1)}@{m.group(2)}' if m else (out['build_error'] or ['?'])[0]
             return {'what': f'playing raised ({txt or out["build_error"]}); {len(notes)} notes were due',
                     'signature': 'play-raises:' + where}
-        on, off, other = notes_of_msgs(canon_msgs(self.impl_msgs(out)))
+        raw = self.impl_msgs(out)
+        new_ids = [m[3][1] for m in raw if m[1] == '/s_new']
+        if len(set(new_ids)) != len(new_ids):
+            dup = sorted(i for i in set(new_ids) if new_ids.count(i) > 1)
+            return {'what': f'node ids are not fresh: {[(m[0], m[3][1]) for m in raw if m[1] == "/s_new"]} '
+                            f'(id {dup[0]} creates more than one synth)', 'signature': 'node-id-reused:' + self.top(case)}
+        for m in raw:
+            if m[1] == '/n_set' and m[2][1] not in new_ids:
+                return {'what': f'gate-off {m} addresses a node no /s_new of the run created',
+                        'signature': 'gate-off-wrong-node:' + self.top(case)}
+        on, off, other = notes_of_msgs(canon_msgs(raw))
         got = sorted(((v, sorted(off.get(k, []))) for k, v in on.items()), key=lambda x: (round(x[0][0], 6), str(x)))
         exp = sorted(((n[0], [n[1]] if n[1] is not None else []) for n in notes), key=lambda x: (round(x[0][0], 6), str(x)))
         if other:
@@ -756,13 +794,20 @@ class Check(common.Check):
     @staticmethod
     def top(case):
         p = case['prog']
-        return 'event' if p[0] == 'event' else p[2][0]
+        return p[0] if p[0] in ('event', 'replay') else p[2][0]
 
     def shrink(self, case, fails):
         def cands(prog):
             if prog[0] == 'event':
                 for i in range(len(prog[2])):
                     yield ['event', prog[1], prog[2][:i] + prog[2][i + 1:]]
+                return
+            if prog[0] == 'replay':
+                for i in range(len(prog[3])):
+                    if len(prog[3]) > 1:
+                        yield prog[:3] + [prog[3][:i] + prog[3][i + 1:]]
+                for i in range(len(prog[2])):
+                    yield prog[:2] + [prog[2][:i] + prog[2][i + 1:]] + [prog[3]]
                 return
             def pc(t):
                 k = t[0]
@@ -823,7 +868,9 @@ class Check(common.Check):
                     walk(x)
         for c, o in zip(cases, outs):
             p = c['prog']
-            if p[0] == 'event':
+            if p[0] == 'replay':
+                h['replay'] = h.get('replay', 0) + 1
+            elif p[0] == 'event':
                 h['event'] += 1
                 for k, _ in p[2]:
                     h['keys'][k] = h['keys'].get(k, 0) + 1
